@@ -142,13 +142,27 @@ const c17Rule = "case = shared reified node (sharded directory with cold cache /
 func TestC17_P_ConcurrentReads(t *testing.T) {
 	ev := newEvid(t, c17Rule)
 	rapid.Check(t, func(t *rapid.T) {
-		kind := rapid.SampledFrom([]string{"hamt-cold", "hamt-cold", "hamt-warm", "file", "file-oldstyle", "hamt-cold-faulty", "file-wide"}).Draw(t, "kind")
+		kind := rapid.SampledFrom([]string{"hamt-cold", "hamt-cold", "hamt-warm", "file", "file-oldstyle", "hamt-cold-faulty", "file-wide", "plaindir-wide"}).Draw(t, "kind")
 		st := NewStore()
 		var root cid.Cid
 		var names []string
 		var tree *ShardNode
 		var content []byte
-		if kind == "file-wide" {
+		if kind == "plaindir-wide" {
+			// a plain (unsharded) directory with more than a thousand entries: still far below the automatic sharding threshold
+			n := rapid.SampledFrom([]int{1023, 1024, 1025, 1500, 3000}).Draw(t, "plainEntries")
+			es := make([]entrySpec, n)
+			for i := range es {
+				names = append(names, fmt.Sprintf("entry-%05d", i))
+				es[i] = entryFor(names[i], 0)
+			}
+			var err error
+			root, _, err = buildDir(st, es)
+			if err != nil {
+				t.Fatalf("harness: %v", err)
+			}
+			tree = &ShardNode{Cid: root}
+		} else if kind == "file-wide" {
 			// one node with several hundred links (a width above the default, or another writer's layout)
 			content = lcgBytes(rapid.IntRange(260, 700).Draw(t, "wideLen"), 9, 0)
 			var err error
